@@ -4,7 +4,10 @@ import struct
 from a816.cpu.cpu_65c816 import AddressingMode, NoOpcodeForOperandSize, Opcode, guess_value_size
 from a816.parse.nodes import ByteNode, ExpressionNode, LongNode, NodeError, OpcodeNode, PointerNode, WordNode
 from vf.contracts.rt import assume, check, ghost, require
-from vf.specs import isa65816, le
+from a816.parse.codegen import generate_opcode
+from a816.parse.errors import ParserSyntaxError
+from a816.parse.parser_states import parse_opcode
+from vf.specs import isa65816, le, syntax
 from vf.specs.supported_set import SUPPORTED
 
 WIDTH = {"b": 1, "w": 2, "l": 3}
@@ -119,6 +122,44 @@ def table_mnemonic_nosuffix_contract(mnemonic, expr, resolver, tok, addr, v):
             check("only_isa_instructions_nosuffix", expected is not None)
             check("opcode_byte_nosuffix", r[0] == expected)
             check("operand_le_nosuffix", le.is_le(r[1:], v, WIDTH[eff]))
+
+
+def lower_size(c):
+    if c == "B" or c == "b":
+        return "b"
+    if c == "W" or c == "w":
+        return "w"
+    return "l"
+
+
+def statement_tokens_contract(p, resolver, shape, size_text, mnemonic, operand_tokens):
+    """Operand syntax -> addressing mode (the link between the source text's tokens and the table obligations): for each
+    operand shape of the statement, with or without a size suffix in either letter case, the real parse_opcode and
+    generate_opcode yield ONE OpcodeNode whose (mode, index) denotes -- through isa65816.form_of, the same function the table
+    obligations use -- exactly the 65c816 form the syntax denotes (vf/specs/syntax.py) at every width, or nothing at all
+    (such a node is rejected: table obligations `only_isa_instructions`); the suffix is carried lower-cased, the mnemonic
+    lower-cased, and the operand expression is exactly the operand's tokens, in order."""
+    try:
+        a = parse_opcode(p)
+    except (ParserSyntaxError, KeyError):
+        check("only_malformed_shapes_are_refused_by_the_parser", syntax.denotes_nothing(shape))
+        return
+    check("whole_statement_consumed", p.pos == len(p.tokens) - 1)
+    code = generate_opcode(a, resolver, {}, a.file_info)
+    check("one_node", len(code) == 1 and isinstance(code[0], OpcodeNode))
+    node = code[0]
+    check("mnemonic_lower_cased", node.opcode == mnemonic)
+    if size_text is None or shape == "implied":
+        check("no_suffix_no_size", node.size is None)  # an implied instruction has no operand: a suffix has nothing to size
+    else:
+        check("suffix_is_the_size", node.size == lower_size(size_text))
+    for w in ("b", "w", "l"):
+        check("mode_denotes_the_syntax_form", isa65816.form_of(node.addressing_mode.name, node.index, w) == syntax.form(shape, w))
+    if shape == "implied":
+        check("no_operand", node.value_node is None)
+    else:
+        check("operand_is_the_operand_tokens", [t.token for t in node.value_node.expression.tokens] == operand_tokens)
+        check("operand_resolver", node.value_node.resolver is resolver and node.resolver is resolver)
 
 
 def opcode_node_size_agreement_contract(node, addr, v):
